@@ -70,6 +70,8 @@ type c20Opts struct {
 	InterCLI  bool   // the certificate is issued by an intermediate CA that only `verify -i` supplies
 	Rerun     bool   // the last step is first carried out with a very noisy command, then again for real (same link path, shorter file)
 	NonASCII  bool   // product file names with non-ASCII characters
+	InterCLI2 bool   // ... and that intermediate is itself issued by another intermediate: two -i files
+	CommaName bool   // the product is named with a comma and passed to `run -p` as a path of its own
 	OddNames  bool   // step names and the metadata directory contain characters of file-name patterns
 	Resign    bool   // the layout file is first signed as an earlier revision, then revised in place (stale signatures stay) and signed again with the same keys
 }
@@ -107,6 +109,7 @@ type c20World struct {
 	ownerPub                      []string // public key files of the layout signers
 	layout                        string
 	inter                         string
+	inter2                        string // a second intermediate file (chain leaf <- inter2 <- inter <- root)
 	o                             c20Opts
 }
 
@@ -127,6 +130,13 @@ func libraryVerdict(w *c20World, layoutFile string, pubFiles []string) (bool, st
 	var inter [][]byte
 	if w.inter != "" {
 		b, err := os.ReadFile(w.inter)
+		if err != nil {
+			return false, "intermediate: " + err.Error()
+		}
+		inter = append(inter, b)
+	}
+	if w.inter2 != "" {
+		b, err := os.ReadFile(w.inter2)
 		if err != nil {
 			return false, "intermediate: " + err.Error()
 		}
@@ -162,6 +172,8 @@ func runC20(c *core.Ctx) {
 		if o.DSSE && o.NonASCII {
 			o.Noisy = 1 // control characters and non-ASCII characters in one DSSE payload
 		}
+		o.InterCLI2 = o.InterCLI && r.Intn(2) == 0
+		o.CommaName = !o.RunDirOpt && r.Intn(4) == 0
 		o.OddNames = r.Intn(4) == 0
 		metaName := "meta"
 		if o.OddNames {
@@ -169,6 +181,9 @@ func runC20(c *core.Ctx) {
 		}
 		outFile := func(step string) string {
 			step = strings.NewReplacer("[", "-", "]", "").Replace(step) // the product name is used as a rule pattern, too
+			if o.CommaName {
+				step += ",v1"
+			}
 			if o.NonASCII {
 				return step + "-naïve-出力.out"
 			}
@@ -217,6 +232,11 @@ func runC20(c *core.Ctx) {
 				issuer, _ = gen.NewCA(gen.CertSpec{CN: "c20-intermediate"}, ca)
 				w.inter = filepath.Join(w.keys, "intermediate.cert.pem")
 				os.WriteFile(w.inter, []byte(issuer.PEM), 0644)
+				if o.InterCLI2 {
+					issuer, _ = gen.NewCA(gen.CertSpec{CN: "c20-intermediate-2"}, issuer)
+					w.inter2 = filepath.Join(w.keys, "intermediate2.cert.pem")
+					os.WriteFile(w.inter2, []byte(issuer.PEM), 0644)
+				}
 			}
 			pemS, _, _ := issuer.Issue(gen.CertSpec{CN: "fetcher"}, fn[0].Public)
 			certFile = filepath.Join(w.keys, "fn0.cert.pem")
@@ -291,7 +311,12 @@ func runC20(c *core.Ctx) {
 				inv = cl.run(w.work, append(append([]string{"run"}, common...), "-m", "proj", "-p", "proj", "-x")...)
 			default:
 				args := append([]string{"run"}, common...)
-				args = append(args, "-m", "proj", "-p", "proj")
+				if o.CommaName {
+					// the product is passed as a path of its own (a comma in a path is an ordinary character)
+					args = append(args, "-m", "proj", "-p", newFile)
+				} else {
+					args = append(args, "-m", "proj", "-p", "proj")
+				}
 				cmdOps := ops
 				if o.RunDirOpt {
 					// the command runs inside proj/: paths are relative to it
@@ -486,6 +511,14 @@ func runC20(c *core.Ctx) {
 				return t.ownerPub
 			}},
 			{"layout content tampered", func(t *c20World) []string { gen.TamperFile(t.layout); return t.ownerPub }},
+			{"layout content tampered, verified with the first signer's key only", func(t *c20World) []string {
+				gen.TamperFile(t.layout)
+				return t.ownerPub[:1]
+			}},
+			{"layout content tampered, verified with the last signer's key only", func(t *c20World) []string {
+				gen.TamperFile(t.layout)
+				return t.ownerPub[len(t.ownerPub)-1:]
+			}},
 			{"layout signed by an outsider only", func(t *c20World) []string {
 				unsigned.Dump(t.layout)
 				cl.run(t.root, "sign", "-f", t.layout, "-k", outsiderPriv, "-o", t.layout)
@@ -542,6 +575,9 @@ func runC20(c *core.Ctx) {
 				if w.inter != "" {
 					t.inter = filepath.Join(t.keys, "intermediate.cert.pem")
 				}
+				if w.inter2 != "" {
+					t.inter2 = filepath.Join(t.keys, "intermediate2.cert.pem")
+				}
 				keyFiles := tm.f(t)
 				if side == 0 {
 					args := []string{"verify", "-l", t.layout, "-d", t.meta}
@@ -550,6 +586,9 @@ func runC20(c *core.Ctx) {
 					}
 					if t.inter != "" {
 						args = append(args, "-i", t.inter)
+					}
+					if t.inter2 != "" {
+						args = append(args, "-i", t.inter2)
 					}
 					c.Begin(tid)
 					cliInv = cl.run(t.final, args...)
@@ -668,7 +707,7 @@ func init() {
 	core.Register(&core.Property{
 		ID:    "C20",
 		Level: "exploration",
-		Rule: "seeded supply chains of 1-3 steps carried out ONLY through the built `in-toto` binary: per step `run` or `record start` / (changes by hand) / `record stop`, options drawn from {step names and metadata directory with brackets, product names with non-ASCII characters, layout file signed as an earlier revision / revised in place / signed again with the same keys, --use-dsse, -c certificate with the CA in the layout (the certificate issued directly or by an intermediate CA that only `verify -i` supplies), -l strip prefix, -d metadata directory, --run-dir, -x, -e exclude}, step commands that are quiet / print several lines / write to stderr only; in a third of the chains the last step is carried out twice (a noisy first attempt, then the real one, both writing the same link path); layout written by the harness and signed with `in-toto sign` by 1-2 keys; link names checked against the verifier's naming; then `verify` on the honest chain and after each of 13 single tamperings (product byte, extra file, link content, link signature, link missing, link renamed, layout content, layout signed by an outsider, wrong -k, extra -k of a non-signer, an unloadable / missing key file listed before a good one, expired layout), each time compared with library verification of a byte-identical copy; `sign --verify` with signer / outsider keys, `key id` on a key and on a non-key, `match-products` on untouched and locally changed products compared with InTotoMatchProducts. " +
+		Rule: "seeded supply chains of 1-3 steps carried out ONLY through the built `in-toto` binary: per step `run` or `record start` / (changes by hand) / `record stop`, options drawn from {certificate chain over two intermediates passed as two -i files, product named with a comma and passed to `run -p` by its own path, step names and metadata directory with brackets, product names with non-ASCII characters, layout file signed as an earlier revision / revised in place / signed again with the same keys, --use-dsse, -c certificate with the CA in the layout (the certificate issued directly or by an intermediate CA that only `verify -i` supplies), -l strip prefix, -d metadata directory, --run-dir, -x, -e exclude}, step commands that are quiet / print several lines / write to stderr only; in a third of the chains the last step is carried out twice (a noisy first attempt, then the real one, both writing the same link path); layout written by the harness and signed with `in-toto sign` by 1-2 keys; link names checked against the verifier's naming; then `verify` on the honest chain and after each of 15 single tamperings (product byte, extra file, link content, link signature, link missing, link renamed, layout content - verified with all, only the first and only the last signer key -, layout signed by an outsider, wrong -k, extra -k of a non-signer, an unloadable / missing key file listed before a good one, expired layout), each time compared with library verification of a byte-identical copy; `sign --verify` with signer / outsider keys, `key id` on a key and on a non-key, `match-products` on untouched and locally changed products compared with InTotoMatchProducts. " +
 			"non-trivial = the chain reached `verify`; distinct = (option set, tampering)",
 		Assumptions: []string{"the inspection of the generated layout runs in the directory `verify` is started in (a separate final-product directory)", "open known finding F6 also shows here: --use-dsse together with -c"},
 		Workers:     func(string) int { return 16 },
